@@ -63,6 +63,9 @@ struct sub_ent {
     std::atomic<bool> finished{false};
     std::string result;              // result of a blocking / coroutine next
     bool co_done = false;
+    bool report = false;             // coroutine: completion is reported as an event (not in the head of the op line)
+    bool done0 = false;              // coroutine finished inside the operation that started it
+    std::string result0, pos0;       // ... with this result / position
 };
 
 suspend_point<void> wake_awaiter::fn(awaiter *me, void *) noexcept {
@@ -86,10 +89,17 @@ struct fire {
     };
 };
 
-static fire co_next(sub_ent *e) {
+struct ctx_t;
+static void co_finished(ctx_t *c, sub_ent *e, bool b);
+static void co_follow(ctx_t *c, int sid);
+
+// a listener coroutine: awaits next() of one subscriber and — `follow` >= 0 — as soon as it is resumed (by publish,
+// close or kick, i.e. *inside* their wake-up pass, outside the lock) goes straight into next() of another (or the
+// same) subscriber
+static fire co_next(ctx_t *c, sub_ent *e, int follow) {
     bool b = co_await e->s->next();
-    e->result = fetch_str(*e->s, b);
-    e->co_done = true;
+    co_finished(c, e, b);
+    if (follow >= 0) co_follow(c, follow);
 }
 
 struct ctx_t {
@@ -97,8 +107,16 @@ struct ctx_t {
     std::shared_ptr<queue_t> q;
     std::deque<sub_ent> subs;       // index = sid (deque: stable addresses)
     std::size_t npub = 0;
+    std::vector<std::pair<int, std::string>> pev;   // events in the order they happened
     std::vector<std::string> evs;
     int dummy_target = 0;
+
+    // canonical order = by sid, events of one sid in the order they happened
+    void flush_events() {
+        std::stable_sort(pev.begin(), pev.end(), [](const auto &a, const auto &b) { return a.first < b.first; });
+        for (auto &e : pev) evs.push_back(e.second);
+        pev.clear();
+    }
 
     sub_ent *get(int sid) {
         if (sid < 0 || (std::size_t)sid >= subs.size()) return nullptr;
@@ -120,18 +138,44 @@ struct ctx_t {
             if (e.phase == PARKED && e.woken) {
                 e.woken = false;
                 e.phase = FETCH;
-                evs.push_back("w" + std::to_string(e.sid));
+                pev.emplace_back(e.sid, "w" + std::to_string(e.sid));
             } else if (e.phase == BLOCKED && !q_parked(*q, s_handle(*e.s))) {
                 e.thr.join();
-                evs.push_back("b" + std::to_string(e.sid) + "=" + e.result + "@" + std::to_string(e.s->position()));
-                done_or_idle(e, e.result);
-            } else if (e.phase == COPARKED && e.co_done) {
-                evs.push_back("c" + std::to_string(e.sid) + "=" + e.result + "@" + std::to_string(e.s->position()));
+                pev.emplace_back(e.sid, "b" + std::to_string(e.sid) + "=" + e.result + "@" + std::to_string(e.s->position()));
                 done_or_idle(e, e.result);
             }
         }
+        flush_events();
     }
 };
+
+// the coroutine of `e` got its result: the subscriber is free again at once (a follow-up next() may come right now)
+static void co_finished(ctx_t *c, sub_ent *e, bool b) {
+    e->result = fetch_str(*e->s, b);
+    e->co_done = true;
+    if (e->report) {
+        c->pev.emplace_back(e->sid, "c" + std::to_string(e->sid) + "=" + e->result + "@" + std::to_string(e->s->position()));
+    } else {
+        e->done0 = true;
+        e->result0 = e->result;
+        e->pos0 = c->pos(*e);
+    }
+    c->done_or_idle(*e, e->result);
+}
+
+static void co_follow(ctx_t *c, int sid) {
+    sub_ent *f = c->get(sid);
+    if (!f || f->phase != IDLE) {
+        c->pev.emplace_back(sid, "c" + std::to_string(sid) + "=bad");
+        return;
+    }
+    f->co_done = false;
+    f->report = true;
+    f->phase = COPARKED;        // until it finishes (co_finished resets it)
+    co_next(c, f, -1);
+    if (!f->co_done)
+        c->pev.emplace_back(sid, "c" + std::to_string(sid) + "=parked@" + std::to_string(f->s->position()));
+}
 
 static const char *mode_ok = "abr";
 static subscribtion_type mode_of(char c) {
@@ -272,18 +316,24 @@ static void run_case(std::istream &in, std::size_t maxlen, std::size_t minlen) {
                     head << "blk " << a1 << " parked" << c.pos(*e);
                 }
             }
-        } else if (op == "co") {
+        } else if (op == "co" || op == "chain") {
+            // chain <sid> <sid2>: coroutine awaiting next() of sid and then, at once, next() of sid2
             sub_ent *e = c.get(a1);
-            if (!e || e->phase != IDLE) head << "bad";
+            int follow = op == "chain" ? (w.size() > 2 ? atoi(w[2].c_str()) : -2) : -1;
+            if (!e || e->phase != IDLE || follow == -2) head << "bad";
             else {
                 e->co_done = false;
-                co_next(e);
-                if (e->co_done) {
-                    c.done_or_idle(*e, e->result);
-                    head << "co " << a1 << " " << e->result << c.pos(*e);
+                e->report = false;
+                e->done0 = false;
+                // a result that is there at once belongs to the head of this line (taken right then: the follow-up
+                // may move the same subscriber on before co_next returns)
+                co_next(&c, e, follow);
+                if (e->done0) {
+                    head << op << " " << a1 << " " << e->result0 << e->pos0;
                 } else {
                     e->phase = COPARKED;
-                    head << "co " << a1 << " parked" << c.pos(*e);
+                    e->report = true;
+                    head << op << " " << a1 << " parked" << c.pos(*e);
                 }
             }
         } else if (op == "pub") {
